@@ -50,7 +50,7 @@ m = {
     ],
     "checks": checks,
     "not_applicable": na,
-    "notes": "Technique family: static analysis only. exit 0 = all obligations hold or are listed in known_findings.json; exit 1 + VIOLATION line = an unlisted obligation fails; exit 2 = check unusable (tree does not build / anchor missing / control did not fire). The fix: commits made to /repo are recorded as 'fixed' entries in known_findings.json.",
+    "notes": "Technique family: static analysis only. exit 0 = all obligations hold or are listed in known_findings.json; exit 1 + VIOLATION line = an unlisted obligation fails; exit 2 = check unusable (tree does not build / anchor missing / control did not fire). The fix: commits made to /repo are recorded as 'fixed' entries in known_findings.json. The thorough tier additionally replays the stored property-breaking changes of the property (seeded/<id>-m*/patch.diff) on a scratch copy of the current tree (temporary directory, removed afterwards) and records in the evidence whether each is still reported (coverage.sensitivity_replay, one SENSITIVITY line); this tests the checker and never changes the verdict.",
 }
 json.dump(m, open(os.path.join(HERE, "MANIFEST.json"), "w"), indent=1)
 print("checks:", [c["property_id"] for c in checks], "na:", [n["property_id"] for n in na])
